@@ -322,6 +322,17 @@ class C16(Prop):
             if cells.has_tag(v):
                 continue
             cs.append('xs limits 4000 - - | push %s | printread' % cells.fmt(v))
+        # bit-strings that are views into a longer buffer, starting at every bit offset (the printer walks them in 8-bit groups that
+        # straddle bytes; a short last group may straddle too)
+        for pre in range(1, 8):
+            for ln in list(range(0, 26)) + [rng.randint(26, 90) for _ in range(3)]:
+                if not thorough and ln > 12 and rng.random() < 0.5:
+                    continue
+                bits = ''.join(rng.choice('01') for _ in range(ln))
+                post = rng.choice([0, 1, 3, 9])
+                cs.append('xs limits 4000 - - | push W%d.%d.%s | printread' % (pre, post, bits or '-'))
+                if rng.random() < 0.2:
+                    cs.append('xs limits 4000 - - | push V(W%d.%d.%s,I5) | printread' % (pre, post, bits or '-'))
         # non-negative integers printed in every base the printer knows (with its prefix; hex in both letter cases) read back
         for v in (0, 1, 7, 8, 9, 15, 16, 255, 2 ** 63, 2 ** 64 + 5, I_MAX):
             for flags in (0x102, 0x108, 0x110, 0x910):
